@@ -723,3 +723,9 @@ Proof.
   split; [reflexivity|]. apply mtag_empty_list_defined.
   unfold mtag_array_dom in Hdom. apply andb_true_iff in Hdom. apply Hdom.
 Qed.
+
+(** the data-frame dimension without a column index is the [None] case of the column-unit rule *)
+Theorem frame_dim_unit_no_column n : frame_dim_unit None = getDimensionUnit (DFrame n).
+Proof. reflexivity. Qed.
+Theorem frame_dim_unit_never_empty c : frame_dim_unit c <> EmptyString.
+Proof. unfold frame_dim_unit. destruct c as [[|a s]|]; cbn; discriminate. Qed.
